@@ -170,6 +170,10 @@ class VC(object):
 
     def summary(self, func_spec, fn):
         self.it.summaries[func_spec] = fn
+        # a callee used through a summary is not executed: at least its frame condition is checked on its source
+        if ':' in func_spec and not func_spec.startswith('unmodelled') and func_spec not in self.contract.frame \
+                and func_spec != self.contract.func and func_spec not in self.contract.also:
+            self.contract.frame.append(func_spec)
 
     def call(self, f, *args, **kwargs):
         """run the real body of f; PathCut/Unsupported propagate to the runner"""
